@@ -663,11 +663,13 @@ def _split_opstr(optstr):
     import re
     stack = []
     split_pos = []
-    for match in re.finditer(r',|\(|\)', optstr):
+    # Options are separated by commas, or (as in the standard doctest module)
+    # by whitespace in front of the next sign.
+    for match in re.finditer(r',\s*|\(|\)|\s+(?=[+-])', optstr):
         token = match.group()
-        if token == ',' and not stack:
+        if (token.startswith(',') or token.isspace()) and not stack:
             # Only split when there are no parens
-            split_pos.append(match.start())
+            split_pos.append((match.start(), match.end()))
         elif token == '(':
             stack.append(token)
         elif token == ')':
@@ -676,11 +678,10 @@ def _split_opstr(optstr):
 
     parts = []
     prev = 0
-    for curr in split_pos:
+    for curr, after in split_pos:
         parts.append(optstr[prev:curr].strip())
-        prev = curr + 1
-    curr = None
-    parts.append(optstr[prev:curr].strip())
+        prev = after
+    parts.append(optstr[prev:].strip())
     return parts
 
 
